@@ -65,11 +65,26 @@ def _eq(what: str, got, want, sig: str):
 
 
 class Clock:
-    def __init__(self):
-        self.t = 1000.0
+    """The injected clock. It starts at logical time 0.0 (a turn's `now` may be the epoch) and is handed to the
+    containers through the engine's own injection helper, clematis.engine.cache.logical_time_fn(holder); the reference
+    models read the holder directly (`ref_time`), so the helper is under test as well."""
 
-    def time(self) -> float:
-        return self.t
+    def __init__(self, t0: float = 0.0):
+        from clematis.engine.cache import logical_time_fn
+
+        self.holder = {"now_s": t0}
+        self.time = logical_time_fn(self.holder)
+
+    @property
+    def t(self) -> float:
+        return self.holder["now_s"]
+
+    @t.setter
+    def t(self, v: float) -> None:
+        self.holder["now_s"] = v
+
+    def ref_time(self) -> float:
+        return float(self.holder["now_s"])
 
 
 # =================================================================================================
@@ -214,7 +229,7 @@ class PNs(PairBase):
 
         self.clock = Clock()
         self.impl = _NamespaceCache(cfg["max"], cfg["ttl"], self.clock.time)
-        self.ref = RefTTL(cfg["max"], cfg["ttl"], self.clock.time)
+        self.ref = RefTTL(cfg["max"], cfg["ttl"], self.clock.ref_time)
 
     def invariants(self):
         if self.impl.size() > max(0, self.cfg["max"]):
@@ -294,7 +309,7 @@ class PLru(PairBase):
         super().__init__(cfg)
         self.clock = Clock()
         self.impl = _mk_lrucache(cfg, self.clock.time)
-        self.ref = RefLRUCache(cfg["max"], cfg["ttl"], self.clock.time)
+        self.ref = RefLRUCache(cfg["max"], cfg["ttl"], self.clock.ref_time)
 
     def invariants(self):
         if len(self.impl) > max(0, self.cfg["max"]):
@@ -381,7 +396,7 @@ class PMgr(PairBase):
 
         self.clock = Clock()
         self.impl = CacheManager(max_entries=cfg["max"], ttl_sec=cfg["ttl"], time_fn=self.clock.time)
-        self.ref = RefCacheManager(cfg["max"], cfg["ttl"], self.clock.time)
+        self.ref = RefCacheManager(cfg["max"], cfg["ttl"], self.clock.ref_time)
 
     def invariants(self):
         for name, ns in self.impl._ns.items():
@@ -1017,7 +1032,7 @@ def _build_wrapped(cfg):
 def _ref_for(cfg):
     clock = Clock()
     if cfg["kind"] == "lru":
-        return RefLRUCache(cfg["max"], cfg["ttl"], clock.time)
+        return RefLRUCache(cfg["max"], cfg["ttl"], clock.ref_time)
     return RefLRUBytes(cfg["me"], cfg["mb"])
 
 
@@ -1426,7 +1441,7 @@ def _build_target(t):
 
     clock = Clock()
     inner = LRUCache(max_entries=t["max"], ttl_s=t["ttl"], time_fn=clock.time)
-    ref = RefLRUCache(t["max"], t["ttl"], clock.time)
+    ref = RefLRUCache(t["max"], t["ttl"], clock.ref_time)
     for k, v in t["pre"]:
         inner.put(k, v)
         ref.put(k, v)
